@@ -13,6 +13,7 @@ import (
 	"github.com/scrapli/scrapligo/driver/network"
 	"github.com/scrapli/scrapligo/driver/opoptions"
 	"github.com/scrapli/scrapligo/driver/options"
+	"github.com/scrapli/scrapligo/transport"
 	"github.com/scrapli/scrapligo/util"
 
 	"verif/internal/devsim"
@@ -54,6 +55,7 @@ func toks(out []string, nl string) []devsim.Token {
 }
 
 type step struct {
+	d     *Desc // the operation the step belongs to
 	line  string
 	ev    int // index into Events, -1 for a plain command
 	cmd   *Cmd
@@ -62,16 +64,19 @@ type step struct {
 
 // dialogueDevice builds the causal device of a dialogue/plain case: it reacts to exactly the
 // scripted lines, in order; anything else is answered with an error line and recorded.
-func dialogueDevice(d *Desc) *simDev {
+func dialogueDevice(ds ...*Desc) *simDev {
+	d := ds[0] // prompt and end of line are session-wide
 	var steps []step
-	for i := range d.Warm {
-		steps = append(steps, step{line: d.Warm[i].Text, ev: -1, cmd: &d.Warm[i]})
-	}
-	for k := 0; k < d.Sent(); k++ {
-		steps = append(steps, step{line: d.Events[k].Input, ev: k, hides: d.Events[k].Hidden})
-	}
-	for i := range d.Post {
-		steps = append(steps, step{line: d.Post[i].Text, ev: -1, cmd: &d.Post[i]})
+	for _, o := range ds {
+		for i := range o.Warm {
+			steps = append(steps, step{d: o, line: o.Warm[i].Text, ev: -1, cmd: &o.Warm[i]})
+		}
+		for k := 0; k < o.Sent(); k++ {
+			steps = append(steps, step{d: o, line: o.Events[k].Input, ev: k, hides: o.Events[k].Hidden})
+		}
+		for i := range o.Post {
+			steps = append(steps, step{d: o, line: o.Post[i].Text, ev: -1, cmd: &o.Post[i]})
+		}
 	}
 	sd := &simDev{}
 	cli := &devsim.CLI{Prompts: map[string]string{"exec": d.Prompt}, Mode: "exec", NL: d.NL}
@@ -99,12 +104,13 @@ func dialogueDevice(d *Desc) *simDev {
 				return r
 			}
 		} else {
-			e := d.Events[st.ev]
+			o := st.d
+			e := o.Events[st.ev]
 			r.Out = toks(e.Out, d.NL)
 			sd.pendingHold = e.Hold
-			if d.FinishAt == st.ev {
-				if d.Complete == "text" {
-					r.Out = append(r.Out, devsim.T(d.CompText+d.NL))
+			if o.FinishAt == st.ev {
+				if o.Complete == "text" {
+					r.Out = append(r.Out, devsim.T(o.CompText+d.NL))
 				}
 				return r // back at the prompt
 			}
@@ -129,25 +135,31 @@ func dialogueDevice(d *Desc) *simDev {
 			return
 		}
 		st := steps[idx]
-		if st.ev < 0 || burstDone[st.ev] || len(d.Events[st.ev].Burst) == 0 || !strings.HasPrefix(st.line, string(b)) {
+		if st.ev < 0 || burstDone[idx] || len(st.d.Events[st.ev].Burst) == 0 || !strings.HasPrefix(st.line, string(b)) {
 			return
 		}
-		burstDone[st.ev] = true
-		c.Emit([]byte(d.burst(st.ev)))
+		burstDone[idx] = true
+		c.Emit([]byte(st.d.burst(st.ev)))
 	}
 	return sd
 }
 
 type runner struct {
-	d      Desc
-	t0     time.Time
-	conn   *devsim.Conn
-	dev    *simDev
-	gd     *generic.Driver
-	nd     *network.Driver
-	obs    map[string]int64
-	tags   map[string]bool
-	sample map[string]interface{}
+	d    Desc
+	t0   time.Time
+	conn *devsim.Conn
+	tr   transport.Implementation // what the session is opened on; nil: conn itself
+	opTO time.Duration            // operation timeout; 0: opTimeout
+	// lastMatch: stream offset of the final match point of the preceding interactive operation
+	// (everything before it has certainly been consumed); reset by a plain command, whose echo read
+	// swallows stale bytes
+	lastMatch int
+	dev       *simDev
+	gd        *generic.Driver
+	nd        *network.Driver
+	obs       map[string]int64
+	tags      map[string]bool
+	sample    map[string]interface{}
 }
 
 func (r *runner) tag(s string) { r.tags[s] = true }
@@ -189,13 +201,21 @@ func (r *runner) opFailedAt(keyWhere, where string, err error) *mon.Result {
 
 func (r *runner) open(extra ...util.Option) *mon.Result {
 	d := r.d
+	var tr transport.Implementation = r.conn
+	if r.tr != nil {
+		tr = r.tr
+	}
+	to := opTimeout
+	if r.opTO != 0 {
+		to = r.opTO
+	}
 	opts := []util.Option{
-		options.WithCustomTransport(r.conn),
+		options.WithCustomTransport(tr),
 		options.WithTransportReadSize(d.ReadSize),
 		options.WithPromptSearchDepth(d.PSD),
 		options.WithReturnChar(d.RC),
 		options.WithReadDelay(time.Duration(d.ReadDelay) * time.Microsecond),
-		options.WithTimeoutOps(opTimeout),
+		options.WithTimeoutOps(to),
 	}
 	opts = append(opts, extra...)
 	var err error
@@ -282,6 +302,7 @@ func (r *runner) plain(c Cmd, where string) *mon.Result {
 	if len(ws) != 2 || log[ws[0]].Data != c.Text || log[ws[1]].Data != r.d.RC {
 		return r.bad("c12/write-sequence:plain", "%s %q: expected the writes [command, return], device received %s", where, c.Text, fmtWrites(log, ws))
 	}
+	r.lastMatch = 0
 	rc := log[ws[1]]
 	echoEnd := rc.Generated // everything generated before the return is the echo (and older bytes)
 	r.obs["plain_return_checks"]++
@@ -430,6 +451,11 @@ func (r *runner) checkDialogue(log []devsim.Event, ws []int, stream string, evs 
 	// than the final match point
 	d0 := log[ws[0]].Generated
 	ls := strings.LastIndexByte(stream[:d0], '\n') + 1
+	if r.lastMatch > 0 && r.lastMatch < ls {
+		// the preceding interactive operation stopped reading at its match point (e.g. inside a
+		// completion text): what followed it is still unread and legitimately leads the result
+		ls = r.lastMatch
+	}
 	found := false
 	for s := d0; s >= ls && !found; s-- {
 		for e := mp[sent-1]; e <= len(stream); e++ {
@@ -439,6 +465,7 @@ func (r *runner) checkDialogue(log []devsim.Event, ws []int, stream string, evs 
 			}
 		}
 	}
+	r.lastMatch = mp[sent-1]
 	if !found {
 		return r.bad("c12/result-not-whole-dialogue", "%s: result %q is not the dialogue from the first input (stream offset %d) to the final response (offset %d): reference %q",
 			where, clip(got), d0, mp[sent-1], clip(procOut(norm(stream[d0:mp[sent-1]]))))
@@ -461,33 +488,71 @@ func newRunner(d Desc) *runner {
 	return &runner{d: d, t0: time.Now(), obs: map[string]int64{}, tags: map[string]bool{}, sample: map[string]interface{}{}}
 }
 
-// RunDialogue runs a dialogue or plain case.
-func RunDialogue(d Desc) mon.Result {
-	r := newRunner(d)
-	r.dev = dialogueDevice(&r.d)
-	r.conn = devsim.NewConn(r.dev, devsim.Config{Seg: d.Seg, KeepData: true})
-	defer r.conn.Abandon()
-	var extra []util.Option
-	if d.Driver == "network" {
-		extra = append(extra, options.WithPrivilegeLevels(map[string]*network.PrivilegeLevel{
-			"exec": {Name: "exec", Pattern: defaultPromptPattern}}), options.WithDefaultDesiredPriv("exec"))
+// compPatterns compiles the completion patterns of an operation from its descriptor.
+func compPatterns(d *Desc) []*regexp.Regexp {
+	if d.Complete == "" {
+		return nil
 	}
-	if v := r.open(extra...); v != nil {
-		return *v
+	c := []*regexp.Regexp{regexp.MustCompile(d.CompRe)}
+	if d.CompRe2 != "" {
+		c = append(c, regexp.MustCompile(d.CompRe2))
 	}
-	defer r.close()
-	r.tag("drv=" + d.Driver)
-	r.tag("api=" + d.API)
-	r.tag("seg=" + d.Seg.Mode + "/" + d.Seg.Delay)
-	r.tag(fmt.Sprintf("exact=%v", d.Exact))
-	r.tag(fmt.Sprintf("returnchar=%q", d.RC))
+	return c
+}
+
+func (r *runner) events(d *Desc) (evs []*channel.SendInteractiveEvent, res [][]*regexp.Regexp, hidden int) {
+	promptRe := r.gd.Channel.PromptPattern // the very pattern the session uses
+	comp := compPatterns(d)                // the oracle's own copies, never the slice handed to the library
+	n, sent := len(d.Events), d.Sent()
+	evs = make([]*channel.SendInteractiveEvent, n)
+	res = make([][]*regexp.Regexp, n)
+	for k, e := range d.Events {
+		evs[k] = &channel.SendInteractiveEvent{ChannelInput: e.Input, ChannelResponse: e.Resp, HideInput: e.Hidden}
+		res[k] = append([]*regexp.Regexp{}, comp...)
+		if e.Resp != "" {
+			res[k] = append(res[k], regexp.MustCompile(e.Resp))
+		} else {
+			res[k] = append(res[k], promptRe)
+		}
+		if e.Hidden && k < sent {
+			hidden++
+		}
+	}
+	return evs, res, hidden
+}
+
+func (r *runner) interactive(d *Desc, evs []*channel.SendInteractiveEvent, opo []util.Option) (got string, err error) {
+	switch {
+	case r.nd != nil:
+		x, e := r.nd.SendInteractive(evs, opo...)
+		err = e
+		if e == nil {
+			got = x.Result
+		}
+	case d.API == "channel":
+		b, e := r.gd.Channel.SendInteractive(evs, opo...)
+		err, got = e, string(b)
+	default:
+		x, e := r.gd.SendInteractive(evs, opo...)
+		err = e
+		if e == nil {
+			got = x.Result
+		}
+	}
+	return got, err
+}
+
+// runOp runs one operation group (commands, the dialogue, commands) on the open session. callerComp
+// is the caller-owned slice passed with WithCompletePatterns when the operation uses completion
+// patterns (the same slice for every operation of a session).
+func (r *runner) runOp(d *Desc, callerComp []*regexp.Regexp) (v *mon.Result, nontrivial bool) {
+	r.d = *d
 	for i, c := range d.Warm {
 		if v := r.plain(c, fmt.Sprintf("warm-up command %d", i)); v != nil {
-			return *v
+			return v, false
 		}
 	}
 	n, sent := len(d.Events), d.Sent()
-	nontrivial := false
 	if d.Fresh {
 		// let the initial prompt reach the channel's queue as a read of its own, so that the
 		// fresh-session hazard shows (or not) independently of how fast the call follows Open;
@@ -498,51 +563,20 @@ func RunDialogue(d Desc) mon.Result {
 		r.obs["fresh_sessions"]++
 	}
 	if n > 0 {
-		promptRe := r.gd.Channel.PromptPattern // the very pattern the session uses
-		var comp []*regexp.Regexp
 		var opo []util.Option
+		var compWant []string
 		if d.Complete != "" {
-			comp = []*regexp.Regexp{regexp.MustCompile(d.CompRe)}
-			opo = append(opo, opoptions.WithCompletePatterns(comp))
+			for _, p := range callerComp {
+				compWant = append(compWant, p.String())
+			}
+			opo = append(opo, opoptions.WithCompletePatterns(callerComp))
 		}
 		if d.Exact {
 			opo = append(opo, opoptions.WithExactMatchInput())
 		}
-		evs := make([]*channel.SendInteractiveEvent, n)
-		res := make([][]*regexp.Regexp, n)
-		hidden := 0
-		for k, e := range d.Events {
-			evs[k] = &channel.SendInteractiveEvent{ChannelInput: e.Input, ChannelResponse: e.Resp, HideInput: e.Hidden}
-			res[k] = append([]*regexp.Regexp{}, comp...)
-			if e.Resp != "" {
-				res[k] = append(res[k], regexp.MustCompile(e.Resp))
-			} else {
-				res[k] = append(res[k], promptRe)
-			}
-			if e.Hidden && k < sent {
-				hidden++
-			}
-		}
+		evs, res, hidden := r.events(d)
 		from := len(r.conn.Log())
-		var got string
-		var err error
-		switch {
-		case r.nd != nil:
-			x, e := r.nd.SendInteractive(evs, opo...)
-			err = e
-			if e == nil {
-				got = x.Result
-			}
-		case d.API == "channel":
-			b, e := r.gd.Channel.SendInteractive(evs, opo...)
-			err, got = e, string(b)
-		default:
-			x, e := r.gd.SendInteractive(evs, opo...)
-			err = e
-			if e == nil {
-				got = x.Result
-			}
-		}
+		got, err := r.interactive(d, evs, opo)
 		deliveredAtReturn := r.conn.Delivered()
 		if err != nil {
 			w := "dialogue"
@@ -552,7 +586,7 @@ func RunDialogue(d Desc) mon.Result {
 			if d.Complete != "" {
 				w += ":complete"
 			}
-			return *r.opFailed(w, err)
+			return r.opFailed(w, err), false
 		}
 		log := r.conn.Log()
 		stream := string(r.conn.Stream())
@@ -561,7 +595,7 @@ func RunDialogue(d Desc) mon.Result {
 			ws = ws[1:]
 		}
 		if v := r.checkDialogue(log, ws, stream, d.Events, sent, res, got, deliveredAtReturn, "SendInteractive"); v != nil {
-			return *v
+			return v, false
 		}
 		r.obs["dialogues"]++
 		r.obs["events_sent"] += int64(sent)
@@ -584,17 +618,114 @@ func RunDialogue(d Desc) mon.Result {
 	}
 	for i, c := range d.Post {
 		if v := r.plain(c, fmt.Sprintf("follow-up command %d", i)); v != nil {
-			return *v
+			return v, false
 		}
 	}
 	// the device saw exactly the scripted lines (nothing typed that the dialogue did not call for)
 	if len(r.dev.unexpected) > 0 {
-		return *r.bad("c12/unexpected-line", "device received lines outside the dialogue: %q", r.dev.unexpected)
+		return r.bad("c12/unexpected-line", "device received lines outside the dialogue: %q", r.dev.unexpected), false
+	}
+	return nil, nontrivial
+}
+
+// callerPatternsIntact is the direct monitor on the slice the caller passes with
+// WithCompletePatterns: no call may change what the caller's slice holds.
+func (r *runner) callerPatternsIntact(p []*regexp.Regexp, want []string, after string) *mon.Result {
+	r.obs["caller_pattern_slice_checks"]++
+	for i := range want {
+		if p[i] == nil || p[i].String() != want[i] {
+			got := "<nil>"
+			if p[i] != nil {
+				got = p[i].String()
+			}
+			return r.bad("c12/caller-patterns-modified", "after %s the caller's completion pattern slice holds %q at index %d, the caller put %q there", after, got, i, want[i])
+		}
+	}
+	return nil
+}
+
+func (r *runner) openDialogueSession(d Desc) *mon.Result {
+	var extra []util.Option
+	if d.Driver == "network" {
+		extra = append(extra, options.WithPrivilegeLevels(map[string]*network.PrivilegeLevel{
+			"exec": {Name: "exec", Pattern: defaultPromptPattern}}), options.WithDefaultDesiredPriv("exec"))
+	}
+	if v := r.open(extra...); v != nil {
+		return v
+	}
+	r.tag("drv=" + d.Driver)
+	r.tag("api=" + d.API)
+	r.tag("seg=" + d.Seg.Mode + "/" + d.Seg.Delay)
+	r.tag(fmt.Sprintf("exact=%v", d.Exact))
+	r.tag(fmt.Sprintf("returnchar=%q", d.RC))
+	return nil
+}
+
+// RunDialogue runs a dialogue or plain case.
+func RunDialogue(d Desc) mon.Result {
+	r := newRunner(d)
+	r.dev = dialogueDevice(&d)
+	r.conn = devsim.NewConn(r.dev, devsim.Config{Seg: d.Seg, KeepData: true})
+	defer r.conn.Abandon()
+	if v := r.openDialogueSession(d); v != nil {
+		return *v
+	}
+	defer r.close()
+	v, nontrivial := r.runOp(&d, compPatterns(&d))
+	if v != nil {
+		return *v
 	}
 	if d.Kind == "plain" {
 		nontrivial = r.obs["plain_echo_in_several_reads"] > 0
 	}
 	return r.result(nontrivial)
+}
+
+// RunMulti runs a session of several interactive operations on one channel; the caller reuses one
+// slice of completion patterns for every operation that passes any.
+func RunMulti(d Desc) mon.Result {
+	r := newRunner(d)
+	ops := make([]*Desc, len(d.Ops))
+	for i := range d.Ops {
+		ops[i] = &d.Ops[i]
+	}
+	r.dev = dialogueDevice(ops...)
+	r.conn = devsim.NewConn(r.dev, devsim.Config{Seg: d.Seg, KeepData: true})
+	defer r.conn.Abandon()
+	if v := r.openDialogueSession(d); v != nil {
+		return *v
+	}
+	defer r.close()
+	with := d
+	with.Complete = "text"
+	caller := compPatterns(&with) // defined once by the caller, handed to every operation that uses patterns
+	var want []string
+	for _, p := range caller {
+		want = append(want, p.String())
+	}
+	seq := ""
+	for i, o := range ops {
+		v, _ := r.runOp(o, caller)
+		if v != nil {
+			v.Detail = fmt.Sprintf("operation %d of %d (completion patterns passed per operation: %s): %s", i, len(ops), seq, v.Detail)
+			return *v
+		}
+		if o.Complete != "" {
+			seq += "P"
+			r.obs["operations_reusing_caller_patterns"]++
+		} else {
+			seq += "-"
+			r.obs["operations_without_patterns_between"]++
+		}
+		if v := r.callerPatternsIntact(caller, want, fmt.Sprintf("operation %d (%s)", i, seq)); v != nil {
+			return *v
+		}
+	}
+	r.d = d
+	r.obs["multi_operation_sessions"]++
+	r.tag("multi=" + seq)
+	r.sample["operations"] = seq
+	return r.result(true)
 }
 
 // ---- escalation -----------------------------------------------------------------------------------
@@ -673,14 +804,7 @@ type escState struct {
 	cmdMode       string
 }
 
-// RunEscalation runs a privilege-escalation case (clause f).
-func RunEscalation(d Desc) mon.Result {
-	r := newRunner(d)
-	e := d.Esc
-	st := &escState{}
-	r.dev = escalationDevice(&r.d, st)
-	r.conn = devsim.NewConn(r.dev, devsim.Config{Seg: d.Seg, KeepData: true})
-	defer r.conn.Abandon()
+func escLevels(e *Esc) map[string]*network.PrivilegeLevel {
 	levels := map[string]*network.PrivilegeLevel{
 		"exec": {Name: "exec", Pattern: execPat},
 		"privilege-exec": {Name: "privilege-exec", Pattern: privPat, PreviousPriv: "exec", Deescalate: "disable", Escalate: "enable",
@@ -690,6 +814,18 @@ func RunEscalation(d Desc) mon.Result {
 		levels["configuration"] = &network.PrivilegeLevel{Name: "configuration", Pattern: confPat, NotContains: []string{"tcl)"},
 			PreviousPriv: "privilege-exec", Deescalate: "end", Escalate: "configure terminal"}
 	}
+	return levels
+}
+
+// RunEscalation runs a privilege-escalation case (clause f).
+func RunEscalation(d Desc) mon.Result {
+	r := newRunner(d)
+	e := d.Esc
+	st := &escState{}
+	r.dev = escalationDevice(&r.d, st)
+	r.conn = devsim.NewConn(r.dev, devsim.Config{Seg: d.Seg, KeepData: true})
+	defer r.conn.Abandon()
+	levels := escLevels(e)
 	if v := r.open(options.WithPrivilegeLevels(levels), options.WithDefaultDesiredPriv("privilege-exec"), options.WithAuthSecondary(e.Given)); v != nil {
 		return *v
 	}
